@@ -103,12 +103,27 @@ def _typed_equal(a, b, path=""):
 _REG = [0]
 
 
+_EDIT = [0]
+
+
 def _roundtrip(ctx, iso, label, spec, extra_checks=None):
     from pygaps.parsing.json import isotherm_from_json
     from pygaps.parsing.json import isotherm_to_json
     from pgverif.core import _h
     dg = _h(spec)
     ctx.case([label, dg])
+    _EDIT[0] += 1
+    if _EDIT[0] % 4 == 0:
+        # the isotherm was looked at (identifier, repr, ==) and then annotated in place through its public metadata dictionary
+        # (and its material's): the export is that of the isotherm as it is now
+        try:
+            _ = iso.iso_id, repr(iso), iso == iso
+            iso.properties["annotated_later"] = 7
+            if iso.material.properties and not any(mm is iso.material for mm in __import__("pygaps").MATERIAL_LIST):
+                iso.material.properties["annotated_later"] = "x"
+            ctx.count("histories", "annotated-in-place-after-the-identifier-was-read")
+        except Exception as exc:
+            ctx.error("c06: in-place annotation failed", exc)
     try:
         s = isotherm_to_json(iso)
     except Exception as exc:
